@@ -116,6 +116,20 @@ def handleCf (op : String) (args : List Sexp) : Option Sexp := do
               (idStar (orderWorlds (← boolOf? rev) (← asNat? rot)) (orderDistrict (← boolOf? drev)) G e))
         | _ => none
       pure (tagged "ok" rs)
+  | "id_star_all_frag", [g, ev, .list strategies] => do
+      -- as `id_star_all`, preceded by the membership of the event in the fragments of Props/C07.lean
+      -- (fragment 1, fragment 2, single-world, fragment 2R, fragment 3): the harness compares them with its own membership tests
+      let G ← parseGraph g
+      let e ← eventOf? ev
+      let rs ← strategies.mapM fun s => match s with
+        | .list [rev, rot, drev] => do
+            pure (exceptToSexp Codec.exprToSexp
+              (idStar (orderWorlds (← boolOf? rev) (← asNat? rot)) (orderDistrict (← boolOf? drev)) G e))
+        | _ => none
+      let b (x : Bool) : Sexp := .atom (if x then "1" else "0")
+      pure (tagged "ok" (tagged "frag" [b (!e.isEmpty && inFragmentB G e), b (!e.isEmpty && inFragment2B sortWorlds G e),
+        b (!e.isEmpty && oneWorldB G e), b (!e.isEmpty && inFragment2RB sortWorlds G e),
+        b (!e.isEmpty && inFragment3B sortWorlds G e)] :: rs))
   | "idc_star_all", [g, outs, conds, .list strategies] => do
       let G ← parseGraph g
       let o ← eventOf? outs
